@@ -22,7 +22,8 @@ ASSUMED = [
     {"what": "dyn DialectHandler is the opaque type Handler: ident_quoting_style() / ident_quote() are uninterpreted per handler", "count": 5},
     {"what": "sqlparser Ident::new / Ident::with_quote build (value, quote_style) as their names say", "count": 2},
     {"what": "format!(\"{quote}{quote}\") is the quote char twice and str::replace(quote, that) doubles every occurrence: together quote_doubled() "
-             "(double_quote_chars, one external function for the two statements' effect)", "count": 2},
+             "(double_quote_chars, one external function for the two statements' effect); any other str::replace / format! in quoted_ident is a text the proof knows "
+             "nothing about (str_replace_unknown, quote_twice)", "count": 4},
 ]
 TRUSTED = [
     "the regex of valid_ident and the keyword tables are not inspected (contents assumed adequate)",
@@ -105,6 +106,9 @@ pub mod keywords {
 pub uninterp spec fn quote_doubled(s: Seq<char>, q: char) -> Seq<char>;     // s with every occurrence of q doubled
 #[verifier::external_body]
 pub fn double_quote_chars(ident: &String, quote: char) -> (r: String) ensures r@ == quote_doubled(ident@, quote), { unimplemented!() }
+// any other str::replace / format!: a text the proof knows nothing about
+#[verifier::external_body] pub fn str_replace_unknown(s: &String) -> (r: String) { unimplemented!() }
+#[verifier::external_body] pub fn quote_twice(q: char) -> (r: String) { unimplemented!() }
 // ---------------------------------------------------------------- oracle (property C09)
 pub open spec fn dialect_kw(d: Dialect) -> Set<Seq<char>> {
     match d { Dialect::Redshift => redshift_kw(), _ => Set::<Seq<char>>::empty() }
@@ -158,6 +162,11 @@ def build(X):
         if m:
             qi.text = qi.text[:m.start()] + "sql_ast::Ident::with_quote(quote, double_quote_chars(&ident, quote))" + qi.text[m.end():]
             qi.rewrites.append({"rule": "R5", "what": "`let doubled = format!(\"{quote}{quote}\"); .. ident.replace(quote, &doubled)` -> double_quote_chars(&ident, quote)"})
+        else:
+            # another shape: the doubling is recognised wherever it stands; every other replace / format! yields a text the proof knows nothing about
+            qi.rewrite_re("R5", r"format!\(\"\{quote\}\{quote\}\"\)", "quote_twice(quote)", count=None, why="format!: the quote char twice")
+            qi.rewrite_re("R5", r"\b(\w+)\.replace\(quote, &doubled\)", r"double_quote_chars(&\1, quote)", count=None, why="str::replace(quote, quote quote)")
+            qi.rewrite_re("R5", r"\b(\w+)\.replace\((?:[^()]|\([^()]*\))*\)", r"str_replace_unknown(&\1)", count=None, why="any other str::replace: unknown result")
         qi.ret_name("r")
         qi.contract("ensures r.value@ == quote_doubled(ident@, quote) && r.quote_style == Some(quote), // @QI1")
         qi_text = qi.text
@@ -209,7 +218,20 @@ def sweep():
     return [_try("my table", _NAMES)] + [_try('t"x', [n]) for n in _NAMES]
 
 
+# names with a backslash, for the dialects that quote with a backtick: the name is emitted as it is (MySQL reads a backslash inside backticks literally)
+def _try_backtick():
+    import replaylib
+    src = "from `my t`\nselect {`a\\b`, `c d`}\n"
+    ok, out = replaylib.compile_prql(src, "sql.mysql")
+    want = "`a\\b`"
+    return {"input": src, "expected": "the column is emitted as %s for sql.mysql" % want, "observed": out[:300], "failing": (not ok) or want not in out or "`a\\\\b`" in out, "replay_kind": "backtick",
+            "table": "", "names": []}
+
+
 def replay(failure):
+    r = _try_backtick()
+    if r["failing"]:
+        return r
     for r in sweep():
         if r["failing"]:
             return r
@@ -217,4 +239,6 @@ def replay(failure):
 
 
 def rerun(doc):
+    if doc.get("replay_kind") == "backtick":
+        return _try_backtick()
     return _try(doc["table"], doc["names"])
